@@ -188,6 +188,9 @@ def newLabelled (s : KState τ σ) (r : EvRec τ) : KState τ σ × EvId :=
 /-- `Environment.schedule` -/
 def schedule (s : KState τ σ) (e : EvId) (prio : Nat) (delay : τ) : KState τ σ :=
   { s with agenda := { time := s.now + delay, prio, eid := s.eid, ev := e } :: s.agenda, eid := s.eid + 1 }
+/-- `heappush(queue, (t, prio, next(eid), e))` with an absolute time (the numeric until-stop of `run`) -/
+def scheduleAt (s : KState τ σ) (e : EvId) (prio : Nat) (t : τ) : KState τ σ :=
+  { s with agenda := { time := t, prio, eid := s.eid, ev := e } :: s.agenda, eid := s.eid + 1 }
 def emit (s : KState τ σ) (o : Obs τ) : KState τ σ := { s with trace := s.trace.push o }
 def proc? (s : KState τ σ) (p : EvId) : Option (ProcRec σ) := (s.procs.find? (·.1 == p)).map (·.2)
 def setProc (s : KState τ σ) (p : EvId) (r : ProcRec σ) : KState τ σ :=
